@@ -37,7 +37,7 @@ ASSUMPTIONS = [
     "a field value 'changes' when it is replaced by another object that is not an equal value of the same type; node-valued fields must keep the identical object",
     "registry membership may change only as specified for detach / replace (C03's subject) and is not part of the frame",
 ]
-MUST_SEE = ["digest_size_switches", "ops", "frames_checked", "raising_ops", "watched_writes_on_new_nodes", "setattr_rejected", "delattr_rejected", "repo_tests_contract_evaluations", "deserialize_registry_hits", "failing_replace_on_suffix_twin", "transform_returns_existing_node", "transform_rebuilds_equal_node"]
+MUST_SEE = ["hash_churn_rounds", "copy_protocol_ops", "digest_size_switches", "ops", "frames_checked", "raising_ops", "watched_writes_on_new_nodes", "setattr_rejected", "delattr_rejected", "repo_tests_contract_evaluations", "deserialize_registry_hits", "failing_replace_on_suffix_twin", "transform_returns_existing_node", "transform_rebuilds_equal_node"]
 CONFIG = {
     "quick": {"shards": 16, "histories": 30, "ops": 35, "watchdog_s": 600},
     "thorough": {"shards": 32, "histories": 200, "ops": 60, "watchdog_s": 3400},
@@ -178,9 +178,40 @@ def run_shard(ctx):
             mon.register_callback(TOOL, mon.events.CALL, None)
             mon.free_tool_id(TOOL)
     ctx.count("watched_writes_on_new_nodes", state["new_writes"])
+    if ctx.only_case is None:
+        hash_churn(ctx, U)
     # ------------------------------------------------------------------ the repository's own tests under frame contracts
     if ctx.shard == 0 and ctx.only_case is None:
         repo_tests_under_contracts(ctx)
+
+
+def hash_churn(ctx, U):
+    """hash(node) is an observable of a node like its fields: it stays what it was while many other nodes are created,
+    hashed, dropped and collected around it (addresses re-used) and large unrelated trees are worked on."""
+    import gc
+
+    P = U.P
+    Leaf, Lst = U.cls[f"{P}Leaf"], U.cls[f"{P}List"]
+    for rnd in range(3):
+        tmp = [Leaf(v=i, s=f"churn{rnd}") for i in range(700)]
+        for x in tmp:
+            hash(x)
+        del tmp, x
+        gc.collect()
+        keep = [Leaf(v=10000 + i, s=f"keep{rnd}") for i in range(400)]
+        h0 = [hash(x) for x in keep]
+        big = Lst(items=tuple(Leaf(v=20000 + i, s=f"big{rnd}") for i in range(1300)))
+        big.to_tree()
+        for x in big.dfs():
+            hash(x.node)
+        _ = big == big.duplicate(), {n_ for n_ in big.items}
+        ctx.evaluations += 1
+        ctx.count("hash_churn_rounds")
+        changed = sum(1 for x, h in zip(keep, h0) if hash(x) != h)
+        if changed:
+            ctx.violation("hash-changed", f"hash() of {changed} pre-existing nodes changed while unrelated nodes were created, hashed and collected", {"round": rnd})
+            return
+        del keep, big
 
 
 def histories(ctx, U, state, take_frame, diff_frame):
@@ -420,12 +451,40 @@ def histories(ctx, U, state, take_frame, diff_frame):
             with open(os.devnull, "w") as f:
                 Console(file=f, width=100).print(rng.choice(handles))
 
+        pickles = []
+
+        def op_copy():
+            # the copy / pickle protocols applied to nodes: whatever they return, existing nodes stay as they are
+            import copy
+            import pickle
+
+            n = rng.choice(nodes())
+            how = rng.choice(["copy", "deepcopy", "pickle", "stale_pickle", "deepcopy_parent_of_detached"])
+            ctx.count("copy_protocol_ops")
+            if how == "copy":
+                copy.copy(n)
+            elif how == "deepcopy":
+                copy.deepcopy(n)
+            elif how == "pickle":
+                pickles.append(pickle.dumps(n))
+                pickle.loads(pickles[-1])
+            elif how == "stale_pickle" and pickles:
+                pickle.loads(rng.choice(pickles))
+            else:
+                h = rng.choice(handles)
+                kids = h.children
+                if kids:
+                    k = rng.choice(kids)
+                    snap_extra[id(k)] = (k, tuple((f.name, getattr(k, f.name)) for f in dataclasses.fields(k)), k.id, k.content_id, hash(k))
+                    k.detach_self()
+                copy.deepcopy(h)
+
         def op_config():
             # a configuration switch between creation and later use of the nodes (existing nodes keep their ids)
             config.ID_DIGEST_SIZE = rng.choice([s_ for s_ in (4, 8, 16) if s_ != config.ID_DIGEST_SIZE])
             ctx.count("digest_size_switches")
 
-        ops = [op_config, op_traverse, op_tree, op_xpath, op_pattern, op_visit, op_duplicate, op_replace_ok, op_replace_fail, op_detach, op_twins, op_serialize, op_serialize, op_compare, op_rich]
+        ops = [op_config, op_copy, op_traverse, op_tree, op_xpath, op_pattern, op_visit, op_duplicate, op_replace_ok, op_replace_fail, op_detach, op_twins, op_serialize, op_serialize, op_compare, op_rich]
         snap_extra = {}
         for step in range(ctx.params["ops"]):
             op = rng.choice(ops)
